@@ -25,8 +25,12 @@ def classify(stderr):
         kind = m.group(1)
     else:
         m2 = re.search(r"runtime error: ([^\n]*)", stderr)
+        m3 = re.search(r"([\w:<>, ~\[\]&*()]+): Assertion '([^']*)' failed", stderr)
         if m2:
             kind = "ub:" + re.sub(r"0x[0-9a-f]+|\d+", "N", m2.group(1))[:60]
+        elif m3:
+            # libstdc++'s checked containers (_GLIBCXX_ASSERTIONS): e.g. a vector subscript beyond its size
+            return "container-precondition:" + m3.group(2)[:50], re.sub(r"\s+", " ", m3.group(1))[-90:]
     if kind is None:
         return None
     frames = re.findall(r"#\d+ 0x[0-9a-f]+ in (\S+) (/\S+?):(\d+)", stderr)
@@ -84,6 +88,10 @@ def run(ck):
     # to list positions that the erase shifts): every stored (cell index, node index) pair must be consumed before the erase
     c08 = importlib.import_module("checks.c08")
     asan_lines("solver", [c08.gen_case(rng, "c10p%d" % i, forced_roles=(r,))["line"] for i, r in enumerate(["pair0", "pair1", "pair0", "pair1"] * (1 if quick else 5))], wrap=True)
+    # three cells of ONE face type each around a junction, within adhesion range of two partners: every face-type index that the
+    # polarization writes is later used as a subscript of the type's (one-element) table (own stream)
+    rng_j = random.Random(ck.seed * 811 + 12)
+    asan_lines("solver", [c08.gen_case(rng_j, "c10j%d" % i, forced_roles=("JUNCTION", "normal", "normal", "normal"))["line"] for i in range(2 if quick else 10)], wrap=True)
     asan_lines("init", [c13.gen_ini(rng)["line"] for _ in range(8 if quick else 80)] + [c13.gen_gate(rng)[0] for _ in range(10 if quick else 100)], wrap=True)
     # coarse L-shapes and prisms: ball pivoting leaves holes at the re-entrant / sharp edges, and the hole filler creates new
     # edges while it holds references into the edge list (its own random stream; run side by side)
